@@ -245,6 +245,32 @@ MUTANTS = [
     for leaf in self.leaves:
       leaf.next.discard(node)
     self.leaves = set()''', ['scan:C05']),
+    ('c06-kill-not-subtracted', 'malt/pyct/static_analysis/reaching_definitions.py', '''      gen = self.gen_map[node]
+      defs_out = gen | (defs_in - kill)
+
+    else:''', '''      gen = self.gen_map[node]
+      defs_out = gen | defs_in
+
+    else:''', ['malt.pyct.static_analysis.reaching_definitions.Analyzer.visit_node']),
+    ('c06-kill-ignores-deleted', 'malt/pyct/static_analysis/reaching_definitions.py',
+     'kill = node_scope.modified | node_scope.deleted', 'kill = node_scope.modified',
+     ['malt.pyct.static_analysis.reaching_definitions.Analyzer.visit_node']),
+    ('c06-joins-successors', 'malt/pyct/static_analysis/reaching_definitions.py', '''    for n in node.prev:
+      defs_in |= self.out[n]''', '''    for n in node.next:
+      defs_in |= self.out[n]''', ['malt.pyct.static_analysis.reaching_definitions.Analyzer.visit_node']),
+    ('c06-never-revisits', 'malt/pyct/static_analysis/reaching_definitions.py', '    return prev_defs_out != defs_out',
+     '    return False', ['malt.pyct.static_analysis.reaching_definitions.Analyzer.visit_node']),
+    ('c06-gen-recreated-every-visit', 'malt/pyct/static_analysis/reaching_definitions.py', '      if node not in self.gen_map:',
+     '      if True:', ['malt.pyct.static_analysis.reaching_definitions.Analyzer.visit_node']),
+    ('c06-params-get-no-definition', 'malt/pyct/static_analysis/reaching_definitions.py', '''          def_.param_of = weakref.ref(p)
+          node_symbols[s] = def_''', '''          def_.param_of = weakref.ref(p)''',
+     ['malt.pyct.static_analysis.reaching_definitions.Analyzer.visit_node']),
+    ('c06-state-mutated-in-place', 'malt/pyct/static_analysis/reaching_definitions.py', '''    self.in_[node] = defs_in
+    self.out[node] = defs_out
+''', '''    self.in_[node] = defs_in
+    self.out[node] = defs_out
+    defs_in.value.pop(None, None)
+''', ['scan:C06']),
     ('c10-has-ignores-subkey', 'malt/pyct/cache.py', '    return subkey in parent', '    return True',
      ['malt.pyct.cache._TransformedFnCache.has']),
 ]
